@@ -10,9 +10,49 @@ from concurrent.futures import ThreadPoolExecutor
 TYPES = ["ClassType", "QueryResponseSignature", "Question", "RR", "MalformedMessageData", "AddressEventCount", "StringItem", "IndexListItem"]
 CLANG = ["clang++", "-std=c++14", "-msse4", "-fsyntax-only", "-x", "c++", "-w", "-Xclang", "-ast-dump=json"]
 
-def objs(path, filt):
+_DIGEST = {}
+def _src_digest(d):
+    """SHA-256 over the names and contents of every source file next to the one being dumped (headers included): the key of the AST cache"""
+    import hashlib
+    if d not in _DIGEST:
+        h = hashlib.sha256()
+        for root, _, files in sorted(os.walk(d)):
+            for f in sorted(files):
+                if f.endswith((".h", ".cpp", ".hpp", ".c")):
+                    p = os.path.join(root, f); h.update(os.path.relpath(p, d).encode()); h.update(b"\0"); h.update(open(p, "rb").read()); h.update(b"\0")
+        _DIGEST[d] = h.hexdigest()
+    return _DIGEST[d]
+
+def _dump(path, filt):
+    """clang's JSON AST dump of the declarations whose qualified name contains `filt`. The dump of one translation unit takes seconds and
+    every check asks for the same dozens of dumps, so they are kept under .cache/ast keyed by the digest of ALL sources in the directory,
+    the file, the filter and the command line: the same sources give the same dump, any edit gives a new key."""
+    import hashlib
+    cache = os.environ.get("CDNS_AST_CACHE", os.path.join(os.path.dirname(os.path.dirname(os.path.abspath(__file__))), ".cache", "ast"))
+    key = hashlib.sha256(("\0".join(CLANG) + "\0" + filt + "\0" + os.path.basename(path) + "\0" + _src_digest(os.path.dirname(os.path.abspath(path)))).encode()).hexdigest()
+    f = os.path.join(cache, key + ".json")
+    try:
+        with open(f) as fh: return fh.read()
+    except OSError: pass
     out = subprocess.run(CLANG + ["-Xclang", "-ast-dump-filter=" + filt, path], stdout=subprocess.PIPE, stderr=subprocess.PIPE,
                          universal_newlines=True, timeout=600).stdout
+    try:
+        os.makedirs(cache, exist_ok=True)
+        tmp = f + ".%d.tmp" % os.getpid()
+        with open(tmp, "w") as fh: fh.write(out)
+        os.replace(tmp, f)
+        # (the cache is bounded: the dumps of the few most recent source states are kept)
+        names = [n for n in os.listdir(cache) if n.endswith(".json")]
+        if len(names) > 300:
+            names.sort(key=lambda n: os.path.getmtime(os.path.join(cache, n)))
+            for n in names[:len(names) - 150]:
+                try: os.remove(os.path.join(cache, n))
+                except OSError: pass
+    except OSError: pass
+    return out
+
+def objs(path, filt):
+    out = _dump(path, filt)
     res, dec, i = [], json.JSONDecoder(), 0
     while True:
         j = out.find("{", i)
